@@ -352,6 +352,33 @@ func prefillFanout(src sim.Source, w *world.World, set *model.Set, cfg world.Cfg
 			}
 		}
 	}
+	// the ladder, in a drawn registration order (deepest first, shallowest first, or as the pool has it)
+	var ladder []int
+	for _, raw := range world.LadderPatterns {
+		for i, p := range pool {
+			if p.Raw == raw {
+				ladder = append(ladder, i)
+			}
+		}
+	}
+	if len(ladder) == len(world.LadderPatterns) {
+		switch src.Intn("ladderorder", 3) {
+		case 1:
+			for i, j := 0, len(ladder)-1; i < j; i, j = i+1, j-1 {
+				ladder[i], ladder[j] = ladder[j], ladder[i]
+			}
+		case 2:
+			for i := len(ladder) - 1; i > 0; i-- {
+				j := src.Intn("laddershuffle", i+1)
+				ladder[i], ladder[j] = ladder[j], ladder[i]
+			}
+		}
+		for _, i := range ladder {
+			if msg, ok := reg(i); !ok {
+				return msg, false
+			}
+		}
+	}
 	if fan {
 		// writes through a wildcard edge of the wide node (its edges are found by binary search above 50 children)
 		var later []string
@@ -373,7 +400,7 @@ func prefillFanout(src sim.Source, w *world.World, set *model.Set, cfg world.Cfg
 			}
 		}
 	}
-	return fmt.Sprintf("<shape prefill: %d routes for GET (siblings and wildcard children under /f/ and/or the deep chain under /~)>", n), n > 0
+	return fmt.Sprintf("<shape prefill: %d routes for GET (siblings and wildcard children under /f/, the deep chain under /~, the static/param/catch-all ladder)>", n), n > 0
 }
 
 // entryPointsAgree checks, without any model, that Lookup and Reverse of one reader (the router, a transaction with
